@@ -17,7 +17,7 @@ Open Scope Z_scope.
 (* The list expression of {for $x in e} follows the identifier item "in", which ends a term: a "-" there would be
    lexed as the binary minus (lexNegative looks at the last item sent), so [lex_print] (stated for a position where
    an operand may start) does not apply.  [lb17_anylast e]: the printed text of e lexes to its items whatever the
-   last item was; proved below for a plain variable ($xs). *)
+   last item was; proved below for a plain variable ($xs) and for every expression whose text does not start with "-". *)
 Definition lb17_anylast (e : node) : Prop :=
   forall (uni_letter uni_digit : Z -> bool),
   (forall c, (c < 128)%N -> uni_letter (Z.of_N c) = ((65 <=? c) && (c <=? 90) || (97 <=? c) && (c <=? 122))%N) ->
@@ -32,6 +32,15 @@ Proof.
   change (toks (NDataRef p key [])) with [(itemDollarIdent, 36%N :: key)].
   eapply lexes_weaken; [apply (lexes_dollar uni_letter uni_digit Hla Hda Hle Hde inp 0 key Hk)|auto|apply fexp_stops|].
   intros ty <-. reflexivity.
+Qed.
+
+(* every list expression whose printed text does not start with "-" (the lexer family's lex_print_any).  A text that does
+   start with "-" is outside for a reason of the code: {for $x in (-$a)} prints {for $x in -$a}, where lexNegative reads
+   the "-" behind the identifier item "in" as the binary minus and parseFor fails (W4 of notes/astprint-reparse.md) *)
+Lemma lb17_anylast_no_minus e : wf_expr e -> lex_ok e -> (forall se, print_node e = Some se -> no_minus se) -> lb17_anylast e.
+Proof.
+  intros Hwf Hlo Hm ul ud Hla Hda Hle Hde inp se Hp.
+  exact (lex_print_any ul ud Hla Hda Hle Hde inp 0 e Hwf Hlo se Hp (Hm se Hp)).
 Qed.
 
 (* the text of a {css} command: ASCII without "}" (lexCss reads runes up to the first "}") *)
